@@ -19,6 +19,10 @@ import (
 	sessionsapi "github.com/oauth2-proxy/oauth2-proxy/v7/pkg/apis/sessions"
 )
 
+func addScope(req *http.Request, rp bool) *http.Request {
+	return middlewareapi.AddRequestScope(req, &middlewareapi.RequestScope{ReverseProxy: rp})
+}
+
 const vpAlnum = "ABCDEFGHIJKLMNOPQRSTUVWXYZabcdefghijklmnopqrstuvwxyz0123456789-_"
 
 func vpRandToken(n int) string {
